@@ -1,6 +1,9 @@
 CONSTANT Mutant = "none"
 SPECIFICATION Spec
 INVARIANT Inv_OverrideWins
+INVARIANT Inv_InstanceHost
+INVARIANT Inv_InstanceExclusive
+INVARIANT Inv_KeyXorCredentials
 INVARIANT Inv_NoCertUnlessAsked
 INVARIANT Inv_ProvidedBeatsDefault
 INVARIANT Inv_OptionBeatsEnv
